@@ -69,9 +69,6 @@ func (m *msgSpec) rcptClass(r string) string {
 	case !isASCII(r):
 		c = "idn-domain"
 	}
-	if m.isDup(r) {
-		c = "dup-" + c
-	}
 	return c
 }
 
@@ -183,6 +180,32 @@ func (o outcome) String() string {
 		return "ok"
 	}
 	s := o.Stage + ":" + o.Class
+	if o.Then != "" {
+		s += "+" + o.Then
+	}
+	return s
+}
+
+// stageGroup maps a stage (scripted target stages and server stages) to the
+// coarse stage named in signatures.
+func stageGroup(st string) string {
+	switch st {
+	case "data", "dot", "body":
+		return "body"
+	case "lmtp-rcpt-status", "status":
+		return "status"
+	case "connect", "ehlo", "start":
+		return "start"
+	}
+	return st
+}
+
+// sigCause renders an outcome for a signature: coarse stage and class only.
+func (o outcome) sigCause() string {
+	if o.Class == mx.OK {
+		return "ok"
+	}
+	s := stageGroup(o.Stage) + ":" + o.Class
 	if o.Then != "" {
 		s += "+" + o.Then
 	}
@@ -314,6 +337,11 @@ type oracleCfg struct {
 	Suppressed bool // null sender or no bounce pipeline
 }
 
+// dupClauses are the clauses for which "the recipient was handed to the queue
+// twice" is part of the cause class.
+var dupClauses = map[string]bool{"retry-after-success": true, "retry-after-permanent": true, "over-max-tries": true,
+	"reported-twice": true, "delivered-twice": true, "delivered-and-reported": true}
+
 func terminalClass(c string) bool { return c == mx.OK || c == mx.Perm }
 
 // judge applies the statement to one message: its attempts at the target
@@ -328,6 +356,9 @@ func judge(cfg oracleCfg, m *msgSpec, atts []*attempt, reports []report) *verdic
 		sig := clause + "/kind=" + cfg.Kind
 		if r != "" {
 			sig += "/rcpt=" + m.rcptClass(r)
+			if m.isDup(r) && dupClauses[clause] {
+				sig += "/handed-twice"
+			}
 		}
 		if cfg.Extra != "" {
 			sig += "/" + cfg.Extra
@@ -390,7 +421,7 @@ func judge(cfg oracleCfg, m *msgSpec, atts []*attempt, reports []report) *verdic
 				case st.Last.Class == mx.OK:
 					add("retry-after-success", r, "", fmt.Sprintf("recipient %q was handed to the target again in attempt %d after it had been committed (%s)", r, a.N, strings.Join(st.History, " ")))
 				case st.Last.Class == mx.Perm:
-					cause := "perm-at=" + st.Last.Stage
+					cause := "perm-at=" + stageGroup(st.Last.Stage)
 					if st.Last.Then != "" {
 						cause += "/then=" + st.Last.Then
 					}
@@ -427,10 +458,6 @@ func judge(cfg oracleCfg, m *msgSpec, atts []*attempt, reports []report) *verdic
 
 	for _, r := range v.Order {
 		st := v.States[r]
-		last := "never-attempted"
-		if st.Attempted {
-			last = st.Last.String()
-		}
 		exhausted := st.Tries >= cfg.MaxTries
 		hist := strings.Join(st.History, " ")
 		if st.Reported > 0 && st.Attempted && !terminalClass(st.Last.Class) && !exhausted {
@@ -448,13 +475,9 @@ func judge(cfg oracleCfg, m *msgSpec, atts []*attempt, reports []report) *verdic
 		if st.Delivered+st.Reported > 0 {
 			continue
 		}
-		cause := "last=" + last
-		if st.Attempted && !terminalClass(st.Last.Class) {
-			if exhausted {
-				cause += "/tries-exhausted"
-			} else {
-				cause += "/tries-left"
-			}
+		cause := "last=never-attempted"
+		if st.Attempted {
+			cause = "last=" + st.Last.sigCause()
 		}
 		if !cfg.Suppressed {
 			add("lost", r, cause, fmt.Sprintf("the queue is quiescent, recipient %q was neither committed downstream nor named in a failure report (%s; max_tries=%d)", r, histOr(hist), cfg.MaxTries))
